@@ -9,14 +9,17 @@ HARNESSES = [
     # same cases under UBSan: undefined behaviour on an input of the documented domain aborts the
     # case ("crash") instead of silently producing some value
     {"name": "ubsan", "src": "harness.cpp",
-     "flags": ["-O1", "-DTETL_ENABLE_CONTRACT_CHECKS=1", "-fsanitize=undefined", "-fno-sanitize-recover=all"]},
+     "flags": ["-O1", "-DTETL_ENABLE_CONTRACT_CHECKS=1", "-DC14_CT_TABLE", "-fsanitize=undefined", "-fno-sanitize-recover=all"]},
     # same cases compiled by clang++ 14 with its UBSan: a second front end (rejects what GCC only warns about:
     # bit_ceil<unsigned char> did not compile, fix c19f940), a second constant evaluator for `ctbits`, clang's expansion
     # of the builtins, and a sanitizer that instruments BEFORE narrowing: g++ turns `(unsigned short)(int * int)` into
     # 16-bit arithmetic and never traps on the int overflow, clang does (mutation M5 in REVIEW.md)
     {"name": "clang", "src": "harness.cpp", "compiler": "clang++",
-     "flags": ["-O1", "-DTETL_ENABLE_CONTRACT_CHECKS=1", "-fsanitize=undefined", "-fno-sanitize-recover=all"]},
+     "flags": ["-O1", "-DTETL_ENABLE_CONTRACT_CHECKS=1", "-DC14_CT_TABLE", "-fsanitize=undefined", "-fno-sanitize-recover=all"]},
 ]
+# -DC14_CT_TABLE: the `ctbits` table is a constexpr object (constant evaluators of g++ / clang++); without it (`main`) the
+# same values are evaluated at run time, so that UB met by a constant evaluator (= a build that does not compile) still
+# leaves one build that reports the failing input
 
 RULE = ("8-bit types: every value (unary) and every pair (binary, same-type pairs and (i8,u8) for cmp; mixed-type pairs of gcd/lcm "
         "and the mirrored (u8,i8) cmp pair are thinned in the quick tier; every word x every position 0..255 for the "
@@ -397,3 +400,110 @@ def gen(tier, rng):
 
 def nontrivial(case, impl):
     return not (impl.startswith("unknown-op") or impl.startswith("crash") or impl.startswith("missing"))
+
+
+# ---------------------------------------------------------------------------------------------------------------------
+# compile-time obligations: the template<size_t Pos> overloads of set/reset/flip/test_bit accept every Pos < digits and
+# reject every other Pos with their static_assert.  Two translation units per compiler (g++, clang++): one with all
+# accepted instantiations (must compile), one with all rejected ones, one per line (every line must be reported as the
+# origin of a failed static assertion).  The expectation is the MODEL's: `tbit <ut> 1 <Pos>` through the driver
+# (`ok ...` = Some, `static_assert` = None).  Results are cached per include-tree hash.
+CT_TYPES = [("u8", "unsigned char", 8), ("u16", "unsigned short", 16), ("u32", "unsigned int", 32), ("u64", "unsigned long", 64),
+            ("ull", "unsigned long long", 64)]
+CT_FUNCS = [("set_bit", "{f}<{p}>(w)"), ("set_bit_val", "etl::set_bit<{p}>(w, false)"), ("reset_bit", "{f}<{p}>(w)"),
+            ("flip_bit", "{f}<{p}>(w)"), ("test_bit", "{f}<{p}>(w)")]
+
+
+def ct_probes():
+    """(ut, ctype, function, Pos) for every probe"""
+    out = []
+    for ut, ct, w in CT_TYPES:
+        for pos in (0, w - 1, w, w + 1, 255, 1 << 31, 1 << 32, (1 << 32) + 3, (1 << 63), (1 << 64) - 1):
+            for fn, _ in CT_FUNCS:
+                out.append((ut, ct, fn, pos))
+    return out
+
+
+def ct_expr(fn, pos):
+    pat = dict(CT_FUNCS)[fn]
+    return pat.format(f="etl::" + fn, p=f"{pos}ULL")
+
+
+def extra_checks(ctx):
+    import hashlib
+    import json
+    import re
+    import subprocess
+    import sys
+    from pathlib import Path
+    root = Path(__file__).resolve().parent.parent.parent
+    sys.path.insert(0, str(root))
+    from vlib import engine
+    items = []
+    probes = ct_probes()
+    # the model's answer for every probe
+    drv = engine.build_driver(ID)
+    cases = [f"tbit {ut} 1 {pos}" for (ut, ct, fn, pos) in probes]
+    _, lines, _ = engine.run_bin(drv, cases)
+    expect = [engine.split_legs(l)[0] for l in lines]            # model leg: "ok ..." or "static_assert"
+    work = engine.HBUILD / ID / "ct"
+    work.mkdir(parents=True, exist_ok=True)
+    key = hashlib.sha256((engine.include_hash() + repr(probes) + repr(CT_FUNCS) + "v2").encode()).hexdigest()[:20]
+    cache_path = work / "probe-cache.json"
+    try:
+        cache = json.loads(cache_path.read_text())
+    except Exception:
+        cache = {}
+    if cache.get("key") != key:
+        cache = {"key": key, "results": {}}
+        for cxx in ("g++", "clang++"):
+            pos_lines, neg_lines = [], []
+            head = "#include <etl/bit.hpp>\n"
+            pos_tu = head
+            neg_tu = head
+            for i, (ut, ct, fn, pos) in enumerate(probes):
+                line = f"auto p{i}({ct} w) {{ return {ct_expr(fn, pos)}; }}\n"
+                # every probe goes into BOTH units at a known line: into the unit the model predicts and - for the
+                # opposite verdict - nowhere; a wrong prediction shows up as a compile error / a missing error there
+                if expect[i].startswith("ok"):
+                    pos_tu += line
+                    pos_lines.append((pos_tu.count("\n"), i))
+                else:
+                    neg_tu += line
+                    neg_lines.append((neg_tu.count("\n"), i))
+            res = {}
+            for name, tu in (("pos", pos_tu), ("neg", neg_tu)):
+                f = work / f"probe_{cxx.replace('+', 'x')}_{name}.cpp"
+                f.write_text(tu)
+                # clang stops after 20 errors by default; g++ has no limit
+                lim = ["-ferror-limit=0"] if cxx == "clang++" else []
+                r = subprocess.run([cxx, "-std=c++20", "-fsyntax-only"] + lim + [f"-I{engine.REPO}/include", str(f)],
+                                   capture_output=True, text=True, timeout=600)
+                res[name] = (r.returncode, r.stderr)
+            bad = []
+            # accepted unit: must compile; on failure name the probes whose line is mentioned
+            if res["pos"][0] != 0:
+                hit = {int(m) for m in re.findall(r"probe_\w+_pos\.cpp:(\d+):", res["pos"][1])}
+                named = [i for (ln, i) in pos_lines if ln in hit] or [pos_lines[0][1]]
+                for i in named[:5]:
+                    bad.append((i, "does not compile: " + res["pos"][1][-300:]))
+            # rejected unit: every line must be the origin of a failed static assertion
+            hit = {int(m) for m in re.findall(r"probe_\w+_neg\.cpp:(\d+):", res["neg"][1])}
+            n_static = len(re.findall(r"static[_ ]assert", res["neg"][1]))
+            for (ln, i) in neg_lines:
+                if ln not in hit or n_static == 0:
+                    bad.append((i, "compiles (no static assertion failed at this instantiation)"))
+            cache["results"][cxx] = {"bad": bad[:20], "accepted": len(pos_lines), "rejected": len(neg_lines)}
+        cache_path.write_text(json.dumps(cache))
+    total = 0
+    for cxx, r in cache["results"].items():
+        total += r["accepted"] + r["rejected"]
+        for i, why in r["bad"][:3]:
+            ut, ct, fn, pos = probes[i]
+            items.append({"kind": "violation", "found_input": True,
+                          "text": f"compile-time obligation: {fn}<{pos}>({ct}) with {cxx}: {why}; model: {expect[i]}",
+                          "payload": {"property": ID, "kind": "compile-time obligation (template<Pos> static_assert)",
+                                      "case": cases[i], "compiler": cxx, "impl": why, "model": expect[i],
+                                      "expression": ct_expr(fn, pos), "type": ct}})
+    ctx.evidence = dict(getattr(ctx, "evidence", {}), compile_time_probes=total)
+    return items
